@@ -201,6 +201,9 @@ func runSchedule(pg *Program, prefix []int, bound int) (*runObs, error) {
 	sn := w.Snap()
 	o.Final = sn.Lines()
 	o.Findings = br.CheckReservationInvariant(sn)
+	for _, m := range c.misuse {
+		o.Findings = append(o.Findings, br.Finding{Key: "group-lock-released-by-non-holder", Msg: m})
+	}
 	return o, nil
 }
 
